@@ -13,12 +13,13 @@ TOK = {"int": 1, "none": None}
 
 
 # ------------------------------------------------------------------------------ behaviours from TLC
-def mc_cfg(rate=0, depth=8, frames=3, throw=True, devs=None, invariants=True, emit=False, view=True, alphabet="MC"):
+def mc_cfg(rate=0, depth=8, frames=3, throw=True, devs=None, invariants=True, emit=False, view=True, alphabet="MC", delegate=True):
     devs = devs or {}
     names = ["Dev_ReturnConst", "Dev_AwaitIsYield", "Dev_ThrowIsYield", "Dev_Resample"]
     lines = ["SPECIFICATION Spec", "CONSTANTS", "  Funcs <- Funcs" + alphabet, "  Kind <- Kind" + alphabet,
              "  Wanted <- Wanted" + alphabet, "  Vals <- Vals" + alphabet, "  MaxFrames = %d" % frames, "  MaxDepth = %d" % depth, "  Rate = %d" % rate,
-             "  AllowThrow = %s" % ("TRUE" if throw else "FALSE"), "  AllowDrop = %s" % ("TRUE" if throw else "FALSE")]
+             "  AllowThrow = %s" % ("TRUE" if throw else "FALSE"), "  AllowDrop = %s" % ("TRUE" if throw else "FALSE"),
+             "  AllowDelegate = %s" % ("TRUE" if delegate else "FALSE")]
     lines += ["  %s = %s" % (n, "TRUE" if devs.get(n) else "FALSE") for n in names]
     lines.append("CONSTRAINT DepthOK")
     if view:
@@ -120,7 +121,7 @@ def build_actions(hist, rng, env, rich=None, admit=None, force=None):
             acts.append({"op": op, "f": t["canon"], "kind": kind, "wanted": wanted, "target": t["name"],
                          "args": args, "kwargs": kwargs, "sigfunc": t["sigfunc"], "selfargs": t["selfargs_f"],
                          "catch": h["catch"], "draw": h["draw"], "id": h["id"]})
-        elif op in ("Resume", "Throw", "Drop"):
+        elif op in ("Resume", "Throw", "Drop", "Delegate"):
             acts.append({"op": op, "id": h["id"], "catch": h["catch"], "draw": h["draw"]})
         elif op == "Return":
             acts.append({"op": op, "id": h["id"], "how": h["f"], "val": val(h["v"])})
@@ -249,10 +250,14 @@ def scenario_signature(rec, sc, clause):
     if sc["rate"] > 1:
         first, late = {}, False
         for h in sc["hist"]:
-            if h["op"] in ("Resume", "Throw", "Drop") and h["f"] in ("G", "C"):     # generators and coroutines alike
-                if h["id"] not in first:
-                    first[h["id"]] = h["draw"]
-                elif first[h["id"]] != 0 and h["draw"] == 0:
+            # ch = the frames that receive a call event in this action (a resumed delegation chain: all of them)
+            ids = h.get("ch") if h.get("ch") is not None else ([h["id"]] if h["op"] in ("Resume", "Throw", "Drop") else [])
+            if h["op"] == "Call":
+                ids = []                                       # plain calls are entered once
+            for x in ids:
+                if x not in first:
+                    first[x] = h["draw"]
+                elif first[x] != 0 and h["draw"] == 0:
                     late = True
         sig["sampled"] = True
         if clause in ("ArgNames", "ArgTypes", "ReturnAbsentOnException", "ReturnPresent", "ReturnType", "YieldsOnly", "YieldsCovered") and sc["rate"] > 1:
